@@ -265,7 +265,7 @@ func checkOriginatedLinks(e *env, stable, churn []*link, items [][]fanItem) {
 		nhb, nsr := 0, 0
 		for i, f := range frames {
 			// forwarded frames carry the foreign identity the writers gave them
-			if wr, op, _, ok := tagOf(f); ok && wr < 100 && op >= opFrameAll {
+			if wr, op, _, ok := tagOf(f); ok && (wr < 100 || wr == 250) && op >= opFrameAll {
 				continue
 			}
 			if l.lossy && f.Seq != c.nextSeq && f.Seq == 0 {
